@@ -144,7 +144,7 @@ int main(int argc, char **argv) {
         int sens = used == 0 || l1 != l3 || memcmp(out, out3, l1) != 0;
         fprintf(v_out, "{\"e\":\"gen\",\"api\":\"%s\",\"reqs\":[", gens[gi].name);
         for (int i = 0; i < nr; i++) fprintf(v_out, i ? ",%zu" : "%zu", rq[i]);
-        fprintf(v_out, "],"); v_emit_bytes("served", served, used); fputc(',', v_out); v_emit_bytes("out", out, l1 > 32 && !strstr(gens[gi].name, "str") && !strstr(gens[gi].name, "buf") && !strstr(gens[gi].name, "hkdf") ? (strstr(gens[gi].name, "sign") ? 64 : 32) : l1);
+        fprintf(v_out, "],"); v_emit_bytes("served", served, used); fputc(',', v_out); v_emit_bytes("out", out, l1);
         fprintf(v_out, ",\"repeat_equal\":%s,\"sensitive\":%s}\n", same ? "true" : "false", sens ? "true" : "false");
     }
     /* ---- deterministic generator: all lengths in one record per seed */
